@@ -63,6 +63,7 @@ func (c *cancelCtx) cancel(err error) {
 	c.err = err
 	c.CancelStep = vrt.Step()
 	vrt.Touch(c.id, true, 2)
+	vrt.Observe("ctx.cancel", c.id)
 	vrt.Close(c.done)
 	if c.CancelStep == 0 {
 		c.CancelStep = 1
@@ -100,6 +101,14 @@ func WithTimeout(parent Context, d time.Duration) (Context, CancelFunc) {
 
 func WithDeadline(parent Context, t time.Time) (Context, CancelFunc) {
 	return WithTimeout(parent, t.Sub(time.Date(2024, 1, 1, 0, 0, 0, 0, time.UTC).Add(time.Duration(vrt.Now()))))
+}
+
+// IDOf returns the identity of a controlled cancel context (0 if it is none).
+func IDOf(ctx Context) int {
+	if c, ok := ctx.Value(selfKey{}).(*cancelCtx); ok && c != nil {
+		return c.id
+	}
+	return 0
 }
 
 // CancelStepOf returns the step at which ctx was cancelled (0 if not or unknown).
